@@ -137,6 +137,54 @@ def run_operator_case(case, prop, configs, weakly, want, nq=8, cinf_bounds=(5, 5
                     'detail': {'base': bdesc, 'query': qtext, 'impl': g, 'definition': exp,
                                'oracle_note': note, 'partition': setup.part, 'inf': setup.inf,
                                'tags': tags, 'via': via}})
+    # ---- the same BeliefBase OBJECT edited in place (a rule replaced under its key), asked again through new
+    # managers: answers are a function of the base's content, not of what was computed for the object before
+    if rng.random() < 0.2 and len(conds) >= 2:
+        for _ in range(12):
+            j = rng.randrange(len(conds))
+            newc = gen.rand_base(rng, nat=len(sig), ncond=1, depth=rng.choice([0, 1, 2]), p_const=0.0)[1][0]
+            conds2 = list(conds)
+            conds2[j] = newc
+            base2 = rm.Base(sig, conds2, extra_atoms=sorted(extra))
+            setup2 = rm.Setup(base2, weakly)
+            if setup2.ok and newc != conds[j]:
+                break
+        else:
+            setup2 = None
+        if setup2 is not None and setup2.ok:
+            bump('in_place_edits')
+            csys2 = cref.CSys(base2) if csys is not None else None
+            bdesc2 = base_desc(sig, conds2)
+            for (system, p) in configs:
+                cname = impl.cfg_name(system, p)
+                bb = impl.mk_bb(sig, conds, keys=keys, via='api')
+                klist = list(bb.conditionals.keys())
+                try:
+                    impl.ask(bb, system, p, impl.mk_queries(qs[:2]), weakly=weakly)     # warm up on the old content
+                    nc = impl.mk_cond(*newc)
+                    nc.index = klist[j]
+                    bb.conditionals[klist[j]] = nc                                       # edit in place
+                    got2 = impl.results(impl.ask(bb, system, p, impl.mk_queries(qs), weakly=weakly))
+                except BaseException as e:  # noqa
+                    if type(e).__name__ == 'SoftTimeout':
+                        raise
+                    res['violations'].append({
+                        'sig': '%s:%s:exception-after-in-place-edit:%s' % (cname, mode, type(e).__name__),
+                        'detail': {'base_before': bdesc, 'base_after': bdesc2, 'error': str(e)[:200]}})
+                    continue
+                for qi, (B, A) in enumerate(qs):
+                    qv2, qf2 = base2.q(B, A)
+                    exp2, note2 = oracle_answer(setup2, csys2, system, qv2, qf2)
+                    res['evals'] += 1
+                    if exp2 is None:
+                        continue
+                    if got2[qi] != exp2:
+                        stale = (got2[qi] == ref_by_sys[system][qi][0])
+                        res['violations'].append({
+                            'sig': '%s:%s:wrong-answer-after-in-place-edit(impl=%s,def=%s)%s' % (
+                                cname, mode, got2[qi], exp2, ':equals-answer-for-old-content' if stale else ''),
+                            'detail': {'base_before': bdesc, 'base_after': bdesc2, 'replaced_position': j,
+                                       'query': fml.cond_text(B, A), 'impl': got2[qi], 'definition': exp2}})
     # discriminating statistics (measured on the oracle side)
     if 'system-w' in ref_by_sys or 'lex_inf' in ref_by_sys:
         for qi, (qv, qf) in enumerate(qtt):
